@@ -398,4 +398,104 @@ Proof.
     split; [repeat constructor|]. split; [reflexivity|]. repeat split; auto.
 Qed.
 
+
+(* ------------------------------------------------------------------ the first step of the task after the request:
+   FailedPause is armed at the top of the loop and travels down the plan stack until a running plan is handed it *)
+Definition al (s : st) : Prop := List.length (resps s) = List.length (plans s).
+Definition stk (p : bool) (s : st) : Prop := if p then S (List.length (resps s)) = List.length (plans s) else al s.
+Definition pre_fall (s : st) : Prop :=
+  cache s = None /\ permit s = true /\
+  ((state s = Pausing /\ exc_slot s = None) \/ (state s = Aborting /\ exc_slot s = Some EFailedPause)).
+Definition pausing0 (s : st) : Prop := state s = Pausing /\ cache s = None /\ exc_slot s = None.
+Definition fal (s : st) : Prop :=
+  state s = Aborting /\ permit s = true /\ stashed s <> None /\
+  (exc_slot s = Some EFailedPause \/ (exc_slot s = None /\ stashed s = Some EFailedPause)).
+Definition nolive_top (pl : list (frame P)) : Prop := match pl with FUser _ _ true :: _ => False | _ => True end.
+Definition toppid (pl : list (frame P)) (pid : nat) : Prop := match pl with FUser pid' _ true :: _ => pid' = pid | _ => True end.
+
+Definition Fall (pl0 : list (frame P)) (s : st) (c : ctl) : Prop :=
+  (plans s = pl0 \/ nolive_top pl0) /\
+  match c with
+  | CCancelled p => pre_fall s /\ stk p s
+  | CContinue p _ => (pausing0 s \/ fal s) /\ stk p s
+  | CTop => (pausing0 s \/ fal s) /\ al s
+  | CBody | CAfterSleep => fal s /\ al s
+  | CExit x => x = XExn EFailedPause /\ plans s = [] /\ state s = Aborting
+  | _ => False
+  end.
+
+Definition thrownFP (pl0 : list (frame P)) (o : list obs) : Prop :=
+  exists pid, fin o = Some (OPlanIn pid (Throw EFailedPause)) /\ toppid pl0 pid.
+
+Lemma nolive_toppid pl pid : nolive_top pl -> toppid pl pid.
+Proof. destruct pl as [|[pid' p [|]| | |] tl]; cbn; tauto. Qed.
+
+Lemma fall_dstep pl0 (s : st) c r0 :
+  Fall pl0 s c -> dstep s c = r0 ->
+  match r0 with
+  | inl (s', c', o) => nb o -> Forall np o /\ ((fin o = None /\ Fall pl0 s' c') \/ (term_state (state s') = true /\ thrownFP pl0 o))
+  | inr (s', o) => Forall np o /\ fin o = None /\ plans s' = [] /\ (exists r, pc s' = PcFinalSleep r) /\ nolive_top pl0 /\ state s' = Aborting
+  end.
+Proof.
+  intros [HP HF] H. destruct c; cbn [RE_Small.dstep] in H; try contradiction.
+  - (* CTop *)
+    destruct HF as [[(S1 & S2 & S3)|(A1 & A2 & A3 & A4)] Hal].
+    + rewrite S1 in H. change (rstate_eqb Pausing Pausing) with true in H. unfold resumable in H. rewrite S2 in H. cbn [orb andb negb] in H.
+      unfold set_state in H. simp_st. rewrite S1, allowed_pausing_aborting' in H. subst r0. intros _.
+      split; [repeat constructor|]. left. split; [reflexivity|]. split; [exact HP|]. split; [|exact Hal].
+      right. unfold fal. simp_st. split; [reflexivity|]. split; [reflexivity|]. split; [discriminate|]. right. split; [exact S3 | reflexivity].
+    + rewrite A1 in H. change (rstate_eqb Aborting Pausing) with false in H. change (rstate_eqb Aborting Suspending) with false in H.
+      cbn [orb andb] in H. rewrite A2 in H. cbn [negb] in H. subst r0. intros _.
+      split; [constructor|]. left. split; [reflexivity|]. split; [exact HP|]. split; [|exact Hal]. repeat split; assumption.
+  - (* CBody *)
+    destruct HF as [(A1 & A2 & A3 & A4) Hal]. unfold al in Hal. rewrite Hal, Nat.eqb_refl in H. cbn [negb] in H.
+    destruct (stashed s) eqn:Est; [|contradiction A3; reflexivity]. subst r0. intros _.
+    split; [constructor|]. left. split; [reflexivity|]. split; [exact HP|]. split; [|exact Hal]. unfold fal. rewrite Est. repeat split; auto.
+  - (* CAfterSleep *)
+    destruct HF as [(A1 & A2 & A3 & A4) Hal].
+    destruct (resps s) as [|r rest] eqn:Er; [subst r0; intros Hb; exfalso; inv Hb; contradiction|].
+    destruct (plans s) as [|top tl] eqn:Ep; [subst r0; intros Hb; exfalso; inv Hb; contradiction|].
+    pose proof (dstep_aftersleep _ presume plan_of _ dev s r rest top tl Er Ep) as E. cbn [RE_Small.dstep] in E. rewrite Er, Ep in E.
+    rewrite E in H. clear E. cbv zeta in H.
+    destruct (as_state_fields P D s rest) as (F1 & F2 & F3 & F4 & F5 & F6 & F7 & F8 & F9 & F10).
+    set (s2 := as_state P D s rest) in *. clearbody s2.
+    assert (Hst : stashed s2 = Some EFailedPause).
+    { rewrite F9. destruct A4 as [->|[-> B]]; [reflexivity | exact B]. }
+    assert (Hin : as_input P D s2 r = Throw EFailedPause) by (unfold as_input; rewrite Hst; reflexivity).
+    rewrite Hin in H. cbn [is_throw] in H.
+    destruct (frame_resume presume top (Throw EFailedPause)) as [ou po] eqn:Ef.
+    assert (Hlive : forall pid p, top = FUser pid p true -> po = [OPlanIn pid (Throw EFailedPause)]).
+    { intros pid p ->. cbn [frame_resume] in Ef. destruct (presume p (Throw EFailedPause)); inv Ef; reflexivity. }
+    destruct (frame_resume_throw _ presume _ _ _ _ Ef) as [[-> ->]|[[pid ->]|(pid & -> & -> & Hx)]]; [| |discriminate Hx].
+    + (* not a running plan: the exception comes back and goes to the next frame *)
+      assert (Hnl : nolive_top pl0).
+      { destruct HP as [HP|HP]; [|exact HP]. rewrite <- HP. destruct top as [pid p [|]| | |]; try exact I.
+        specialize (Hlive pid p eq_refl). discriminate Hlive. }
+      cbn [as_post is_Exception] in H. cbv zeta in H. simp_st. rewrite F5, Ep in H. cbn [List.tl] in H.
+      destruct tl as [|f2 tl2]; subst r0; intros _; (split; [constructor|]); left; (split; [reflexivity|]); (split; [right; exact Hnl|]).
+      * simp_st. rewrite F5, Ep, F1. repeat split; auto.
+      * split; [|unfold stk, al; simp_st; rewrite F5, Ep, F6; cbn [List.tl]; unfold al in Hal; rewrite Er, Ep in Hal; cbn [List.length] in *; lia].
+        right. unfold fal. simp_st. rewrite F1, F4, F10. split; [exact A1|]. split; [exact A2|]. split; [discriminate|]. right. split; reflexivity.
+    + (* a running plan is handed FailedPause *)
+      destruct (as_post P D s2 true ou [OPlanIn pid (Throw EFailedPause)]) as [[s' c'] o] eqn:Ea. subst r0. intros _.
+      assert (K : o = [OPlanIn pid (Throw EFailedPause)] /\ state s' = state s2).
+      { unfold as_post in Ea. repeat (bmh Ea); inv Ea; simp_st; auto. }
+      destruct K as [-> K]. split; [repeat constructor|]. right. split; [rewrite K, F1, A1; reflexivity|].
+      exists pid. split; [reflexivity|]. destruct HP as [HP|HP]; [|apply nolive_toppid; exact HP].
+      rewrite <- HP. destruct top as [pid' p [|]| | |]; try exact I. cbn. specialize (Hlive pid' p eq_refl). inv Hlive. reflexivity.
+  - (* CContinue *)
+    destruct HF as [HF Hs]. subst r0. intros _. split; [constructor|]. left. split; [reflexivity|].
+    split; [destruct popped; exact HP|]. split.
+    + destruct HF as [(S1 & S2 & S3)|(A1 & A2 & A3 & A4)]; [left | right]; destruct popped; repeat split; auto.
+    + unfold stk, al in *. destruct popped; simp_st; cbn [List.length]; auto.
+  - (* CCancelled *)
+    destruct HF as [(C1 & C2 & [[S1 S2]|[S1 S2]]) Hs]; rewrite S1 in H; subst r0; intros _; (split; [constructor|]); left; (split; [reflexivity|]).
+    + split; [exact HP|]. split; [|exact Hs]. left. repeat split; auto.
+    + split; [destruct (stashed s); exact HP|]. split; [|destruct (stashed s); exact Hs].
+      right. unfold fal. destruct (stashed s) eqn:Est; simp_st; rewrite ?Est; repeat split; auto; discriminate.
+  - (* CExit *)
+    destruct HF as (-> & Hpl & Hst). subst r0. simp_st. split; [repeat constructor|]. split; [reflexivity|]. split; [exact Hpl|].
+    split; [eexists; reflexivity|]. split; [|exact Hst]. destruct HP as [HP|HP]; [rewrite <- HP, Hpl; exact I | exact HP].
+Qed.
+
 End C10.
